@@ -112,6 +112,40 @@ def basis_part(rep, rng, runq, todo, quick):
         tq = runq.add(f"mclose {C.qlit(1e-10 * sc)} (to_grid opsQ {Phi.shape[1]}%nat {C.qmat(Phi)} {C.qmat(coef)}) {C.qmat(gv)}")
         todo.append((tq, "2-D to_grid = coefficients times tensor basis functions", ("basis2d", f1, f2, coef.tobytes()),
                      {"part": "basis-2D", "family": [f1, f2], "n_obs": 3}))
+        # statistics commute with evaluation in 2-D as well (the covariance of 2-D data is not defined for dense data either)
+        g2 = fd.dense([t1, t2], np.asarray(bd2.to_grid().values, float))
+        bad2 = []
+
+        def fresh2():
+            return BasisFunctionalData(basis=Basis(name=(f1, f2), n_functions=(n1, 2),
+                                                   argvals=DenseArgvals({"input_dim_0": t1, "input_dim_1": t2})), coefficients=coef.copy())
+        try:
+            with warnings.catch_warnings():
+                warnings.simplefilter("ignore")
+                if np.max(np.abs(np.asarray(fresh2().norm(squared=True)) - np.asarray(g2.norm(squared=True)))) > 1e-9 * sc * sc:
+                    bad2.append("squared norms from coefficients differ from those of the evaluated images")
+                ipb = np.asarray(fresh2().inner_product(), float)
+                ref = np.array([[np.trapz(np.trapz(np.asarray(g2.values)[i] * np.asarray(g2.values)[j], t2, axis=1), t1)
+                                 for j in range(3)] for i in range(3)])
+                if np.max(np.abs(ipb - ref)) > 1e-9 * sc * sc:
+                    bad2.append("inner products from coefficients differ from those of the evaluated images")
+                if np.max(np.abs(np.asarray(fresh2().mean().to_grid().values) - np.asarray(g2.mean().values))) > 1e-10 * sc:
+                    bad2.append("mean does not commute with evaluation")
+                if np.max(np.abs(np.asarray(fresh2().center().to_grid().values) - np.asarray(g2.center().values))) > 1e-10 * sc:
+                    bad2.append("centering does not commute with evaluation")
+                if np.all(np.asarray(g2.norm()) > 1e-8) and \
+                        np.max(np.abs(np.asarray(fresh2().normalize().to_grid().values) - np.asarray(g2.normalize().values))) > 1e-9 * sc:
+                    bad2.append("normalisation does not commute with evaluation")
+                for kw in ({}, {"use_argvals_stand": True}):
+                    wb2, wg2 = float(fresh2().rescale(**kw)[1]), float(g2.rescale(**kw)[1])
+                    if abs(wb2 - wg2) > 1e-9 * max(1.0, abs(wg2)):
+                        bad2.append(f"rescaling weight {kw} from coefficients {wb2!r} differs from the evaluated images {wg2!r}")
+        except Exception as e:  # noqa: BLE001
+            bad2.append(f"a statistic of 2-D basis data raised {type(e).__name__}: {str(e)[:100]}")
+        rep.case(("basis2d-stats", f1, f2, coef.tobytes()), kind="basis-2D/statistics")
+        if bad2:
+            rep.violation(f"2-D basis expansion ({f1} x {f2}): " + "; ".join(bad2),
+                          {"family": [f1, f2], "coefficients": C.hexf(coef)})
 
 
 def spline_part(rep, rng, quick):
